@@ -318,7 +318,7 @@ template <class T> inline std::string casestr (const Box<Vec3<T>>& b, const Line
 
 struct Tally
 {
-    long long cases = 0, excluded = 0, overflow = 0, alloverflow = 0, empty = 0, flat = 0, inside = 0, hit_outside = 0, behind = 0, miss = 0, graze = 0, axis_par = 0, trans = 0, nbu = 0, uhit = 0;
+    long long cases = 0, excluded = 0, overflow = 0, alloverflow = 0, empty = 0, flat = 0, inside = 0, hit_outside = 0, behind = 0, miss = 0, graze = 0, axis_par = 0, trans = 0, nbu = 0, uhit = 0, upts = 0, uzero = 0;
     double    worst = 0;
     long long fb_judged = 0, fb_excluded = 0, fb_blk[3][2][2] = {{{0, 0}, {0, 0}}, {{0, 0}, {0, 0}}, {{0, 0}, {0, 0}}}; // [axis][dir < 0][origin outside the slab]
     void operator+= (const Tally& o)
@@ -326,7 +326,7 @@ struct Tally
         fb_judged += o.fb_judged; fb_excluded += o.fb_excluded;
         for (int a = 0; a < 3; ++a) for (int g = 0; g < 2; ++g) for (int k = 0; k < 2; ++k) fb_blk[a][g][k] += o.fb_blk[a][g][k];
         cases += o.cases; excluded += o.excluded; overflow += o.overflow; alloverflow += o.alloverflow; empty += o.empty; flat += o.flat; inside += o.inside; hit_outside += o.hit_outside; behind += o.behind;
-        miss += o.miss; graze += o.graze; axis_par += o.axis_par; trans += o.trans; nbu += o.nbu; uhit += o.uhit; if (o.worst > worst) worst = o.worst;
+        miss += o.miss; graze += o.graze; axis_par += o.axis_par; trans += o.trans; nbu += o.nbu; uhit += o.uhit; upts += o.upts; uzero += o.uzero; if (o.worst > worst) worst = o.worst;
     }
 };
 
@@ -334,7 +334,7 @@ struct Tally
 template <class T, class N>
 inline void check_point (const std::string& s_box, const std::string& s_surf, const std::string& s_acc, const Vec3<T>& got, const Frac<N>& t,
                          const N* mn, const N* mx, const N* p, const N* d, const Box<Vec3<T>>& b, const Line3<T>& r, Tally& tl, bool track, const char* what,
-                         long double unit = 1)
+                         long double unit = 1, long double t_abs_err = 0, long double dunit = 1)
 {
     bool inbox = true, surf = false;
     for (int i = 0; i < 3; ++i)
@@ -350,6 +350,7 @@ inline void check_point (const std::string& s_box, const std::string& s_surf, co
         long double M, x = point (t, p, d, i, M);
         x *= unit; M *= unit; // (power of two: exact)
         long double tol = 2 * ex::eps<T> () * M + 2 * (long double) std::numeric_limits<T>::denorm_min ();
+        tol += t_abs_err * fabsl ((long double) d[i]) * dunit; // underflow regime only (see one_case): absolute error of a subnormal parameter times the direction component
         long double err = fabsl ((long double) got[i] - x);
         if (!(err <= tol))
         {
@@ -400,7 +401,10 @@ template <class T, class N> inline void one_case (const N* mn, const N* mx, cons
             if ((opt.negzero >> (6 + i) & 1) && b.min[i] == 0) b.min[i] = -b.min[i];
             if ((opt.negzero >> (9 + i) & 1) && b.max[i] == 0) b.max[i] = -b.max[i];
         }
-    const T      SENT = (T) 777;
+    // every out-parameter is pre-filled, before every call, with a value that is in NO box and equal to no coordinate
+    // (quiet NaN: every comparison with it is false), so that an out-parameter the function did not write - it would
+    // otherwise keep the previous query's hit point or an uninitialised value - fails "in the box" / "== origin".
+    const T      SENT = std::numeric_limits<T>::quiet_NaN ();
     Vec3<T>      ip (SENT), en (SENT), exi (SENT);
     const bool g2 = intersects (b, r);
     const bool g3 = intersects (b, r, ip);
@@ -431,6 +435,38 @@ template <class T, class N> inline void one_case (const N* mn, const N* mx, cons
         if (tr.ray && !g2) fail_lazy ("intersects(box,ray).truth.t-underflows.exact-hit", [&] { return casestr (b, r); }, [&] { return std::string ("truth value true"); }, [&] { return vf::fmt (g2); });
         if (tr.ray && !g3) fail_lazy ("intersects(box,ray,ip).truth.t-underflows.exact-hit", [&] { return casestr (b, r); }, [&] { return std::string ("truth value true"); }, [&] { return vf::fmt (g3); });
         if (!gl) fail_lazy ("findEntryAndExitPoints.truth.t-underflows.exact-hit", [&] { return casestr (b, r); }, [&] { return std::string ("truth value true"); }, [&] { return vf::fmt (gl); });
+        // Reported points in the underflow regime (exact hit, every parameter finite). The statement's "every reported point lies
+        // in the box, on its surface unless the origin is inside, and on the ray to within rounding" and "ip is the ray origin if
+        // that is inside" do not depend on the size of the parameters, so they are demanded here too - sites ".t-underflows":
+        //   * in the closed box / on its surface: unconditionally (a reported point is a face coordinate plus clamped coordinates);
+        //   * accuracy: a parameter t in the subnormal range is representable only to the ABSOLUTE error denorm_min/2 (it may
+        //     round to 0), and two distinct lower (upper) parameters that round to the same number differ by at most denorm_min, so
+        //     the point may legitimately belong to either. Rounding is monotone, hence the parameter the reported point belongs to
+        //     is within denorm_min of the exact tin (tout); its effect on coordinate j is at most denorm_min*|dir_j|. The bound of
+        //     the ordinary regime is widened by exactly that term:  |got - exact| <= 2*eps*M + 2*denorm_min + denorm_min*|dir_j|.
+        //     In particular a first contact whose parameter underflows to 0 with the origin strictly outside the box must be
+        //     reported within that distance of the origin's projection onto the face, not left unwritten.
+        const long double TE = (long double) std::numeric_limits<T>::denorm_min ();
+        ++tl.upts;
+        if (tr.ray && !tr.inside && tr.tin.n > 0 && (long double) tr.tin.n / (long double) tr.tin.d * opt.cscale / opt.dscale < TE / 2) ++tl.uzero; // first-contact parameter > 0 rounds to 0
+        if (g3 && tr.ray)
+        {
+            if (tr.inside)
+            {
+                if (!(ex::same (ip.x, r.pos.x) && ex::same (ip.y, r.pos.y) && ex::same (ip.z, r.pos.z)))
+                    fail_lazy ("intersects(box,ray,ip).ip-is-origin-when-inside.t-underflows", [&] { return casestr (b, r); }, [&] { return "ip == origin " + v3 (r.pos); }, [&] { return v3 (ip); });
+            }
+            else
+                check_point<T, N> ("intersects(box,ray,ip).ip-in-box.t-underflows", "intersects(box,ray,ip).ip-on-surface.t-underflows", "intersects(box,ray,ip).ip-accuracy.t-underflows",
+                                   ip, tr.tin, mn, mx, p, d, b, r, tl, false, "ip", opt.cscale, TE, opt.dscale);
+        }
+        if (gl)
+        {
+            check_point<T, N> ("findEntryAndExitPoints.entry-in-box.t-underflows", "findEntryAndExitPoints.entry-on-surface.t-underflows", "findEntryAndExitPoints.entry-accuracy.t-underflows",
+                               en, tr.tin, mn, mx, p, d, b, r, tl, false, "entry", opt.cscale, TE, opt.dscale);
+            check_point<T, N> ("findEntryAndExitPoints.exit-in-box.t-underflows", "findEntryAndExitPoints.exit-on-surface.t-underflows", "findEntryAndExitPoints.exit-accuracy.t-underflows",
+                               exi, tr.tout, mn, mx, p, d, b, r, tl, false, "exit", opt.cscale, TE, opt.dscale);
+        }
         return;
     }
     if (g2 != tr.ray)
